@@ -42,6 +42,7 @@ ASSUMPTIONS = [
     "documented leniencies excluded from soundness: L1 bare generic standing for G[Any] (incl. a frozenset literal, which the code treats as bare frozenset), L2 fixed-length tuple accepting a variadic tuple, L3 mock classes (not in the universe), L4 Any",
     "protocol checks depend on the value, not only on its class; pairs in the value-dependent region (generic protocol target vs Enum class, protocol target vs type[...]) are searched on the implementation but not compared with the table-driven model",
     "class-level facts enter the model through Generated/ClassTable.lean (regenerated every run)",
+    "objects with an IntEnum member nested in a container are not generated: Python has (IE.X,) == (1,), the Lean object equality keeps enum members apart from ints (harness/common/gen_values.py _no_nested_intenum)",
 ]
 TRUSTED = ["Spec/Mem.lean validated against the CPython-isinstance reference (stream spec)"]
 
